@@ -91,7 +91,7 @@ class Gateway(asyncio.Protocol):
         # "connection done" future is completed: the secondary thread has an attached
         # callback to stop itself, which will cause the a future to propagate a
         # `CancelledError` into the active event loop, breaking everything!
-        if self._startup_reset_future:
+        if self._startup_reset_future and not self._startup_reset_future.done():
             self._startup_reset_future.set_exception(reason)
 
         if self._connection_done_future:
@@ -99,7 +99,9 @@ class Gateway(asyncio.Protocol):
             self._connection_done_future = None
 
         if self._reset_future:
-            self._reset_future.set_exception(reason)
+            if not self._reset_future.done():
+                self._reset_future.set_exception(reason)
+
             self._reset_future = None
 
         if exc is None:
